@@ -334,8 +334,17 @@ func init() {
 		c.waitq = nil
 		return nil
 	})
+	// sync.Pool: LIFO reuse per pool (one of the behaviours the runtime allows,
+	// and the one that exposes objects returned to a pool in a dirty state or
+	// used after Put); a pool with nothing cached calls New.
 	reg("(*sync.Pool).Get", func(fr *frame, a []value) value {
 		p := a[0].(*value)
+		w := fr.w
+		if items := w.pools[p]; len(items) > 0 {
+			it := items[len(items)-1]
+			w.pools[p] = items[:len(items)-1]
+			return it
+		}
 		st := (*p).(structure)
 		newFn := st[len(st)-1]
 		if f, ok := newFn.(*ssa.Function); ok && f == nil {
@@ -343,7 +352,18 @@ func init() {
 		}
 		return call(fr.w, fr, token.NoPos, newFn, nil)
 	})
-	reg("(*sync.Pool).Put", nop)
+	reg("(*sync.Pool).Put", func(fr *frame, a []value) value {
+		p := a[0].(*value)
+		w := fr.w
+		if w.pools == nil {
+			w.pools = map[*value][]value{}
+		}
+		if itf, ok := a[1].(iface); ok && itf.t == nil {
+			return nil // Put(nil) is a no-op
+		}
+		w.pools[p] = append(w.pools[p], a[1])
+		return nil
+	})
 
 	// ---- sync/atomic ----
 	for _, k := range []string{"Int32", "Int64", "Uint32", "Uint64", "Uintptr"} {
@@ -509,6 +529,17 @@ func init() {
 
 	// ---- errors ----
 	reg("errors.Is", func(fr *frame, a []value) value { return fr.w.errorsIs(fr, a[0].(iface), a[1].(iface)) })
+	// context.WithValue: the real one asks reflectlite whether the key type is
+	// comparable; the result (a *valueCtx) is built directly.
+	reg("context.WithValue", func(fr *frame, a []value) value {
+		cp := fr.w.p.prog.ImportedPackage("context")
+		if cp == nil || cp.Type("valueCtx") == nil {
+			panic(unsupported("context.WithValue: context.valueCtx not found"))
+		}
+		named := cp.Type("valueCtx").Object().Type()
+		var v value = structure{a[0], a[1], a[2]}
+		return iface{t: types.NewPointer(named), v: &v}
+	})
 	reg("errors.As", func(fr *frame, a []value) value { return fr.w.errorsAs(fr, a[0].(iface), a[1].(iface)) })
 
 	// ---- time ----
